@@ -473,6 +473,70 @@ def prange_sites(ix):
 
 
 # ----------------------------------------------------------------------------
+def binary_operator_routes(rep: Report, ix):
+    """(g) dot / outer products: field method, numpy closure and numba overload, each with
+    `out` given and with `out` allocated, are interpreted on arrays of distinct symbols
+    (pdelint/tensoralg.py); within one group (ranks, dim, conjugate) every route must return
+    and all routes must return the same entries"""
+    from .. import tensoralg as ta
+
+    outs = [o for o in ta.all_outcomes(ix) if o.route in ("field", "numpy", "numba") and not o.group.startswith("transpose")]
+    groups: dict[str, list] = {}
+    for o in outs:
+        groups.setdefault(o.group, []).append(o)
+    reported = set()
+    for gname, group in sorted(groups.items()):
+        rep.saw("binary-operator route groups", gname)
+        returning = [o for o in group if o.raised is None]
+        raising = [o for o in group if o.raised is not None]
+        ok = not raising or not returning
+        rep.oblige(f"binary-operator routes all return: {gname} ({len(group)} routes)", ok, [(o.site, o.scenario, o.raised) for o in raising[:3]])
+        if not ok:
+            for o in raising:
+                key = (o.site, o.role, bool(o.scenario.get("out given")))
+                if key in reported:
+                    continue
+                reported.add(key)
+                og = "given" if o.scenario.get("out given") else "None"
+                rep.violation(
+                    "C03.binary-operator-route",
+                    f"{o.site}::{o.role}::out={og}::raises",
+                    f"{o.site} ({o.route} route, out={og}) ends in `{o.raised}` for {o.role} in scenario {o.scenario}, while {returning[0].site} (out={'given' if returning[0].scenario.get('out given') else 'None'}) returns a result for the same operands",
+                    line=o.line,
+                )
+        for o in returning:
+            if o.mismatches and o.mismatches[0][0] == "out-not-filled":
+                key = (o.site, o.role, "out-not-filled")
+                if key not in reported:
+                    reported.add(key)
+                    rep.violation(
+                        "C03.binary-operator-route",
+                        f"{o.site}::{o.role}::out=given::not-filled",
+                        f"{o.site} ({o.route} route) returns {o.role} but leaves the array passed as `out` unwritten in scenario {o.scenario}: evaluation with an `out` array does not deliver the result there",
+                        line=o.line,
+                    )
+        rep.oblige(f"binary-operator routes fill `out`: {gname}", not any(o.mismatches and o.mismatches[0][0] == "out-not-filled" for o in returning), len(returning))
+        if len(returning) > 1:
+            ref = returning[0]
+            for o in returning[1:]:
+                diff = ta.arrays_equal(o.value, ref.value)
+                same = not diff and not o.uninit and not ref.uninit
+                if not same:
+                    key = (o.site, o.role, "differs")
+                    if key in reported:
+                        continue
+                    reported.add(key)
+                    og = "given" if o.scenario.get("out given") else "None"
+                    rep.violation(
+                        "C03.binary-operator-route",
+                        f"{o.site}::{o.role}::out={og}::differs",
+                        f"{o.site} ({o.route} route, out={og}) and {ref.site} ({ref.route} route) disagree on {o.role} in scenario {o.scenario}: {diff[:1] or 'uninitialised entries'}",
+                        line=o.line,
+                    )
+            rep.oblige(f"binary-operator routes agree: {gname}", all(not ta.arrays_equal(o.value, ref.value) for o in returning[1:]), len(returning))
+    rep.floor("binary-operator route groups (ranks x dim x conjugate)", len(groups), 27)
+
+
 def check(tier: str) -> Report:
     rep = Report("C03", tier, "other", "sibling agreement of extracted tables / effect summaries; call-convention and prange dependence rules")
     rep.explanation = (
@@ -481,7 +545,10 @@ def check(tier: str) -> Report:
         "(written index, value) pairs and the order of sides/axes obtained by interpreting the dispatch code with logging stand-ins; "
         "(d) effect summaries (allocate, fill valid, ghost cells with args, raw operator, return) of the four operator-application "
         "bodies; (e) compatibility of every set_ghost_cells call site with the keyword-only `args`; (f) for every nb.prange loop: "
-        "stores indexed by the loop variable (+const) at one axis position, store targets not read, nothing carried across iterations."
+        "stores indexed by the loop variable (+const) at one axis position, store targets not read, nothing carried across iterations; "
+        "(g) dot and outer products: the field methods, the numpy closures and the numba overloads are interpreted on arrays of distinct "
+        "symbols for every rank combination, with `out` given and allocated; every route must return (an unbound closure variable or a "
+        "shape error on one route only is a violation) and all routes must return identical entries."
     )
     ix = get_index()
     cfg = read_config_defaults(ix)
@@ -601,6 +668,8 @@ def check(tier: str) -> Report:
     rep.floor("nb.prange loops found", len(sites), 20)
     if missing:
         raise AnalysisError(f"prange loops not reached by the kernel extraction (cannot decide schedule independence): {missing}")
+    # ------------------------------------------------------------------ (g)
+    binary_operator_routes(rep, ix)
     rep.note("(b) sparse-matrix route vs stencil∘BC is decided by C18 (same extraction)")
     rep.assumptions += [
         "documented semantics of scipy.ndimage.correlate1d / laplace (boundary mode only touches the discarded outer layer)",
